@@ -220,7 +220,9 @@ def exec_volume(case):
             res = None
         x["input_before"], x["input_after"] = before, projv(m)
         events.append(x)
-        if res is not None:
+        names = [ev["op"] for ev in case["events"]]
+        mixed = any(names[j] == "split_tet_from_face_center" and "split_cell_as_fan" in names[:j] for j in range(len(names)))
+        if res is not None and not mixed:         # (a face split after a cell split is judged by the block's own events only: known finding)
             Pz = [[0, 0, 0]] * len(res.vertices)      # coordinates are not integral any more: orientation clauses are not used
             kinds = [k for k in c03.ALL_Q if k not in c03.BND_Q]
             rng.shuffle(kinds)
@@ -332,10 +334,12 @@ def run(ctx):
         ops2 = []
         for o in ops:
             if o["op"] == "split_tet_from_face_center":
-                if seen_face or ops2:
+                if seen_face or (ops2 and i % 4 != 2):
                     continue
                 seen_face = True
             ops2.append(o)
+        if i % 4 == 2 and len(ops2) == 1:
+            ops2 = [{"op": "split_cell_as_fan", "k": rng.randrange(64)}, {"op": "split_tet_from_face_center", "k": rng.randrange(64)}]   # a cell split, then a face split, in one block
         vcases.append({"id": "vol-%d" % i, "given": {"V": [[[c, 1] for c in p] for p in P], "C": C, "family": "volume"},
                        "events": ([{"op": "query_before"}] if i % 2 else []) + ops2})
     vobs = ctx.execute("c13", "exec_volume", vcases, chunksize=8)
